@@ -2112,7 +2112,7 @@ class InterpOps:
             lo_t, hi_t = int_range(dty)
             if self.cast_events is not None and dty['k'] in ('int', 'uint'):
                 self.cast_events.append((frame.body['name'], '%s:%s' % (frame.body['file'], frame.body['blocks'][bb]['s'][idx].get('sp')),
-                                         (v[1], v[2]), dty['s'], frame.path))
+                                         (v[1], v[2]), dty['s'], frame.path, v[4]))
             if v[1] >= lo_t and v[2] <= hi_t:
                 return v
             bits = dty['bits'] if 'bits' in dty else 64
